@@ -65,10 +65,21 @@ fn catcher(n: int) -> str {
 fn thrower(msg: str) { throw(msg); }
 fn div(a: int, b: int) -> int { a / b }
 fn deep(n: int) -> int { if n == 0 { 0 } else { 1 + deep(n - 1) } }
-fn worker(i: int) { println("fw", i); }
+fn worker(i: int) {
+    let c = 0;
+    while c < ((i * 7) % 5) * 60 { c = c + 1; }
+    println("fw", i);
+}
 fn fanout(n: int) -> int {
     for i in 0..n { spawn worker(i); }
     n
+}
+fn fanout2(n: int) -> int {
+    for i in 0..n { spawn worker(i + 10); }
+    let c = 0;
+    while c < 120 { c = c + 1; }
+    for i in 0..n { spawn worker(i + 20); }
+    n * 2
 }
 fn say(x: int) { println("say", x); }
 fn flag(b: bool, f: float) -> bool { !b && f > 1.0 }
@@ -92,6 +103,7 @@ type c16Op struct {
 	failKinds []string
 	check     func(v value.Value) string
 	apply     func(m *c16Model)
+	reusable  bool // the expected result does not depend on the model state: the same invocation object may be submitted again
 }
 
 func vInt(i int64) value.Value   { return *value.NewValueInt(i) }
@@ -138,8 +150,13 @@ var intArgs = []int64{0, 1, -1, 2, 7, 99, 100, -50, 1 << 40}
 var strArgs = []string{"", "a", "xy z", "|", "ü"}
 
 // genOp draws one operation. pfault in [0..100]: percentage of failing operations.
-func c16GenOp(s *simrt.Sim, m *c16Model, pfault int) c16Op {
-	pick := func(n int, tag string) int { return s.Choose(n, tag) }
+func c16GenOp(s *simrt.Sim, m *c16Model, pfault int, force int) c16Op {
+	pick := func(n int, tag string) int {
+		if tag == "op" && force >= 0 {
+			return force // directed histories: one entry point over and over
+		}
+		return s.Choose(n, tag)
+	}
 	if pfault > 0 && pick(100, "faultop") < pfault {
 		switch pick(4, "faultkind") {
 		case 0:
@@ -149,15 +166,23 @@ func c16GenOp(s *simrt.Sim, m *c16Model, pfault int) c16Op {
 			a := intArgs[pick(len(intArgs), "arg")]
 			return c16Op{fn: "div", args: []value.Value{vInt(a), vInt(0)}, desc: fmt.Sprintf("div(%d,0)", a), failKinds: []string{"fatal:ValueError"}}
 		case 2:
-			return c16Op{fn: "deep", args: []value.Value{vInt(300)}, desc: "deep(300)", failKinds: []string{"fatal:StackOverFlow"}}
+			return c16Op{reusable: true, fn: "deep", args: []value.Value{vInt(300)}, desc: "deep(300)", failKinds: []string{"fatal:StackOverFlow"}}
 		default:
 			// handled by the caller: print fault / cancel fault on an ordinary op
 		}
 	}
-	switch pick(15, "op") {
+	switch pick(16, "op") {
+	case 15:
+		n := []int64{1, 2, 3}[pick(3, "arg")]
+		return c16Op{fn: "fanout2", args: []value.Value{vInt(n)}, desc: fmt.Sprintf("fanout2(%d)", n), check: wantInt(n * 2), reusable: true, apply: func(m *c16Model) {
+			for i := int64(0); i < n; i++ {
+				m.lines[fmt.Sprintf("fw %d", i+10)]++
+				m.lines[fmt.Sprintf("fw %d", i+20)]++
+			}
+		}}
 	case 0:
 		a, b := intArgs[pick(len(intArgs), "arg")], intArgs[pick(len(intArgs), "arg")]
-		return c16Op{fn: "add", args: []value.Value{vInt(a), vInt(b)}, desc: fmt.Sprintf("add(%d,%d)", a, b), check: wantInt(a - b), apply: func(m *c16Model) { m.counter += a }}
+		return c16Op{reusable: true, fn: "add", args: []value.Value{vInt(a), vInt(b)}, desc: fmt.Sprintf("add(%d,%d)", a, b), check: wantInt(a - b), apply: func(m *c16Model) { m.counter += a }}
 	case 1:
 		c := m.counter
 		return c16Op{fn: "get", desc: "get()", check: wantInt(c)}
@@ -167,10 +192,10 @@ func c16GenOp(s *simrt.Sim, m *c16Model, pfault int) c16Op {
 		return c16Op{fn: "push", args: []value.Value{vInt(x)}, desc: fmt.Sprintf("push(%d)", x), check: wantInt(n), apply: func(m *c16Model) { m.log = append(m.log, x) }}
 	case 3:
 		a, b, c := strArgs[pick(len(strArgs), "arg")], strArgs[pick(len(strArgs), "arg")], strArgs[pick(len(strArgs), "arg")]
-		return c16Op{fn: "concat", args: []value.Value{vStr(a), vStr(b), vStr(c)}, desc: fmt.Sprintf("concat(%q,%q,%q)", a, b, c), check: wantStr(a + "|" + b + "|" + c)}
+		return c16Op{reusable: true, fn: "concat", args: []value.Value{vStr(a), vStr(b), vStr(c)}, desc: fmt.Sprintf("concat(%q,%q,%q)", a, b, c), check: wantStr(a + "|" + b + "|" + c)}
 	case 4:
 		n := intArgs[pick(len(intArgs), "arg")]
-		return c16Op{fn: "obj", args: []value.Value{vInt(n)}, desc: fmt.Sprintf("obj(%d)", n), check: func(v value.Value) string {
+		return c16Op{reusable: true, fn: "obj", args: []value.Value{vInt(n)}, desc: fmt.Sprintf("obj(%d)", n), check: func(v value.Value) string {
 			o, ok := v.(value.ValueObject)
 			if !ok {
 				return fmt.Sprintf("returned %T, want object", v)
@@ -195,42 +220,42 @@ func c16GenOp(s *simrt.Sim, m *c16Model, pfault int) c16Op {
 		if n >= 0 && n < 100 {
 			want = n * 2
 		}
-		return c16Op{fn: "ret_in_loop", args: []value.Value{vInt(n)}, desc: fmt.Sprintf("ret_in_loop(%d)", n), check: wantInt(want)}
+		return c16Op{reusable: true, fn: "ret_in_loop", args: []value.Value{vInt(n)}, desc: fmt.Sprintf("ret_in_loop(%d)", n), check: wantInt(want)}
 	case 6:
 		n := []int64{3, 0, -4, 1}[pick(4, "arg")]
 		want := n
 		if n <= 0 {
 			want = -n
 		}
-		return c16Op{fn: "ret_in_try", args: []value.Value{vInt(n)}, desc: fmt.Sprintf("ret_in_try(%d)", n), check: wantInt(want)}
+		return c16Op{reusable: true, fn: "ret_in_try", args: []value.Value{vInt(n)}, desc: fmt.Sprintf("ret_in_try(%d)", n), check: wantInt(want)}
 	case 7:
 		n := []int64{0, 1, 5, 20}[pick(4, "arg")]
-		return c16Op{fn: "ret_in_while", args: []value.Value{vInt(n)}, desc: fmt.Sprintf("ret_in_while(%d)", n), check: wantStr(fmt.Sprintf("w%d", n))}
+		return c16Op{reusable: true, fn: "ret_in_while", args: []value.Value{vInt(n)}, desc: fmt.Sprintf("ret_in_while(%d)", n), check: wantStr(fmt.Sprintf("w%d", n))}
 	case 8:
 		n := intArgs[pick(len(intArgs), "arg")]
-		return c16Op{fn: "catcher", args: []value.Value{vInt(n)}, desc: fmt.Sprintf("catcher(%d)", n), check: wantStr(fmt.Sprintf("c%d", n))}
+		return c16Op{reusable: true, fn: "catcher", args: []value.Value{vInt(n)}, desc: fmt.Sprintf("catcher(%d)", n), check: wantStr(fmt.Sprintf("c%d", n))}
 	case 9:
 		a := intArgs[pick(len(intArgs), "arg")]
 		b := []int64{1, -1, 2, 7, 1 << 20}[pick(5, "arg")]
-		return c16Op{fn: "div", args: []value.Value{vInt(a), vInt(b)}, desc: fmt.Sprintf("div(%d,%d)", a, b), check: wantInt(a / b)}
+		return c16Op{reusable: true, fn: "div", args: []value.Value{vInt(a), vInt(b)}, desc: fmt.Sprintf("div(%d,%d)", a, b), check: wantInt(a / b)}
 	case 10:
 		n := []int64{0, 1, 5, 30}[pick(4, "arg")]
-		return c16Op{fn: "deep", args: []value.Value{vInt(n)}, desc: fmt.Sprintf("deep(%d)", n), check: wantInt(n)}
+		return c16Op{reusable: true, fn: "deep", args: []value.Value{vInt(n)}, desc: fmt.Sprintf("deep(%d)", n), check: wantInt(n)}
 	case 11:
 		n := []int64{0, 1, 2, 4}[pick(4, "arg")]
-		return c16Op{fn: "fanout", args: []value.Value{vInt(n)}, desc: fmt.Sprintf("fanout(%d)", n), check: wantInt(n), apply: func(m *c16Model) {
+		return c16Op{reusable: true, fn: "fanout", args: []value.Value{vInt(n)}, desc: fmt.Sprintf("fanout(%d)", n), check: wantInt(n), apply: func(m *c16Model) {
 			for i := int64(0); i < n; i++ {
 				m.lines[fmt.Sprintf("fw %d", i)]++
 			}
 		}}
 	case 12:
 		x := intArgs[pick(len(intArgs), "arg")]
-		return c16Op{fn: "say", args: []value.Value{vInt(x)}, desc: fmt.Sprintf("say(%d)", x), check: wantNull, apply: func(m *c16Model) { m.lines[fmt.Sprintf("say %d", x)]++ }}
+		return c16Op{reusable: true, fn: "say", args: []value.Value{vInt(x)}, desc: fmt.Sprintf("say(%d)", x), check: wantNull, apply: func(m *c16Model) { m.lines[fmt.Sprintf("say %d", x)]++ }}
 	case 13:
 		b := pick(2, "arg") == 1
 		f := []float64{0.5, 1.0, 2.5, -3.0}[pick(4, "arg")]
 		want := !b && f > 1.0
-		return c16Op{fn: "flag", args: []value.Value{vBool(b), vFloat(f)}, desc: fmt.Sprintf("flag(%v,%v)", b, f), check: func(v value.Value) string {
+		return c16Op{reusable: true, fn: "flag", args: []value.Value{vBool(b), vFloat(f)}, desc: fmt.Sprintf("flag(%v,%v)", b, f), check: func(v value.Value) string {
 			bv, ok := v.(value.ValueBool)
 			if !ok {
 				return fmt.Sprintf("returned %T, want bool", v)
@@ -284,8 +309,19 @@ func runC16(t *testing.T, spec RunSpec) *Verdict {
 		env.ctx.ResetPolls()
 		m := &c16Model{lines: map[string]int{}}
 		n := 1 + s.Choose(maxLen, "histlen")
+		var prev *c16Op
+		var prevInv *runtime.FunctionInvocation
 		for k := 0; k < n && viol == nil; k++ {
-			op := c16GenOp(s, m, pfault)
+			op := c16GenOp(s, m, pfault, spec.P("force_op", -1))
+			reuse := false
+			if prev != nil && prev.reusable && len(op.failKinds) == 0 && s.Choose(4, "reuse-invocation") == 1 {
+				// a host may submit the very same invocation object (same argument slice) again
+				op = *prev
+				op.failKinds = nil
+				op.desc += " [same invocation object]"
+				reuse = true
+				s.Probe("invocation-object-reused")
+			}
 			mode := s.Choose(3, "mode") // 0 SpawnSync, 1 SpawnAsync+Wait, 2 SpawnAsync+Wait with onFinish
 			// in-history faults on an ordinary operation
 			faultDesc := ""
@@ -308,6 +344,13 @@ func runC16(t *testing.T, spec RunSpec) *Verdict {
 			if err != nil {
 				failNow("infra", "", "", err.Error())
 				return
+			}
+			if reuse && prevInv != nil {
+				inv = *prevInv
+			}
+			{
+				opc, invc := op, inv
+				prev, prevInv = &opc, &invc
 			}
 			s.Logf("call #%d %s%s mode=%d", k, op.desc, faultDesc, mode)
 			if m.failed {
@@ -489,6 +532,19 @@ func planC16(t *testing.T, tier string, seed uint64) ([]RunSpec, error) {
 		s.Sim = swarm(seed, i)
 		s.Sim.POther = 1 // operations, arguments and modes are drawn uniformly
 		s.Seed = runSeed(seed, i)
+		plan = append(plan, s)
+	}
+	// directed histories: the spawning entry points over and over (cores finishing while others are spawned)
+	nd := 400
+	if !quick(tier) {
+		nd = 40000
+	}
+	for i := 0; i < nd; i++ {
+		s := RunSpec{Property: "C16", Workload: "c16/history-fanout", Params: map[string]int{"len": 4, "pfault": 0, "force_op": []int{11, 15}[i%2]}}
+		s.Sim = swarm(seed, n+i)
+		s.Sim.StepCostNs = []int64{1000, 10000, 100000}[i%3]
+		s.Sim.POther = 1
+		s.Seed = runSeed(seed, n+i)
 		plan = append(plan, s)
 	}
 	return plan, nil
